@@ -144,8 +144,9 @@ try:
                         r["zsk"]["algs"] = [tuple(a) if x == ALG_OF[f0] else x for x in r["zsk"]["algs"]]
                     return f
                 big = {"rsa_approved_key_sizes": [1024, 2048, 4096], "rsa_approved_exponents": [3, 65537, 2**32 + 1, 17]}
-                corrupt("declared-size-mismatch", decl(size=2048 if ALG_OF[f0][2] != 2048 else 1024), pol_over=big)
                 WAIVE = (("rsa_exponent_match_zsk_policy", False),)
+                corrupt("declared-size-mismatch", decl(size=2048 if ALG_OF[f0][2] != 2048 else 1024), pol_over=big, flagsets=((), WAIVE, OFF_K))
+                corrupt("declared-size-and-exponent-mismatch", decl(size=2048 if ALG_OF[f0][2] != 2048 else 1024, exp=17), pol_over=big, flagsets=((), WAIVE))
                 corrupt("declared-exponent-mismatch", decl(exp=17), pol_over=big, flagsets=((), WAIVE, OFF_K))
                 corrupt("declared-alg-mismatch", decl(alg=10 if ALG_OF[f0][1] == 8 else 8), pol_over={**big, "approved_algorithms": ["RSASHA256", "RSASHA512"]})
                 corrupt("size-not-approved", lambda r: None, pol_over={"rsa_approved_key_sizes": [4096]}, flagsets=((), (("signature_algorithms_match_zsk_policy", False),)))
